@@ -41,9 +41,9 @@
                    handshakes racing at that instant included) and counts as the reload.
      ClientCAReload
                    client_ca_file_reload = false: the client CAs loaded by LoadTLSConfig are used forever.  true: once the
-                   file has been rewritten in place or atomically replaced (rename) with valid content and the watcher had
-                   time to see it, exactly the new content decides; at no time is a client accepted whose issuer is in
-                   neither a previous nor the present content.  All other settings keep applying (VersionRange,
+                   file has been rewritten in place, atomically replaced (rename) or created again after a removal, with
+                   valid content, and the watcher had time to see it, exactly the new content decides; at no time is a
+                   client accepted whose issuer is in neither a previous nor the present content.  All other settings keep applying (VersionRange,
                    CipherSuites, ServedCertificate).
      Availability  a handshake that no clause above forbids succeeds.
    OPEN points (documentation silent or inconsistent; the specification admits every behaviour, no finding is raised):
